@@ -95,7 +95,7 @@ type vC04Emission struct {
 func TestVerif_C04_fullrt(t *testing.T) {
 	vh.Run(t, vh.Spec{Prop: "C04", Unit: "fullrt", Quick: 600, Thorough: 20000, CostMs: 8,
 		Rule:    "FullRT over a simulated network (1-30 crawled peers, K in {1,2,3,5,8,20}; 0-50% failing/silent/late) with a generated validator (value bound to its key, total rank order, optional expiry instant); each peer holds for the key: a valid record of rank 1-6 (holders of an even rank share identical bytes), an expired one, a malformed one, one whose value was made for another key, one filed under another key, an empty one, the very bytes of the local record (also when that one has expired meanwhile), or nothing; local store: nothing, a valid record, or a record that was valid when stored and is rejected by the validator when the search runs (clock advanced past its expiry); quorum option in {absent,0,1,2,K}; SearchValue (every emission time-stamped) or GetValue, un-cancelled, virtual time; non-trivial = at least 2 records were supplied and at least one of them was not acceptable, or at least 2 values were emitted; distinct by (shape, record mix, arrival order of the answers)",
-		Clauses: []string{"yielded-valid", "strictly-improving", "yielded-was-supplied", "final-at-least-best-supplied", "not-found-iff-nothing-valid"}},
+		Clauses: []string{"yielded-valid", "strictly-improving", "yielded-was-supplied", "final-at-least-best-supplied", "quorum-completing-value-counts", "not-found-iff-nothing-valid"}},
 		func(c *vh.Case) {
 			sc := vC04Gen(c)
 			c.Set("op", sc.Op)
@@ -298,6 +298,42 @@ func TestVerif_C04_fullrt(t *testing.T) {
 						}
 					}
 					c.Check(finalRank >= bestRank, "final-at-least-best-supplied", "%s ended at +%v with final rank %d, but a valid value of rank %d had been supplied by %s strictly before (quorum %d)", sc.Op, closeVT.Sub(start), finalRank, bestRank, bestFrom, sc.Quorum)
+				}
+				// (4b) quorum-ended searches: quorum+1 valid values are processed before the search may abort. The accelerated
+				// client also stops waiting for other reasons (its waitFrac rule), and answers that arrive at the very instant
+				// it stops may be dropped; so the clause speaks only when exactly quorum+1 valid values had been supplied by
+				// the close, the last of them at the very instant of the close, and no other answer of any kind arrived at
+				// that instant: that value completed the quorum, was processed, and the final value ranks at least as good
+				if q := sc.Quorum; q > 0 {
+					nv, top, topFrom := 0, -1, ""
+					var lastVT time.Time
+					for _, s := range sup {
+						if vFrtValidAt(sc.Key, s.Val, s.VT) != nil || s.VT.After(closeVT) {
+							continue
+						}
+						nv++
+						if s.VT.After(lastVT) {
+							lastVT = s.VT
+						}
+						if p, err := vFrtParse(s.Val); err == nil && p.Rank > top {
+							top, topFrom = p.Rank, s.From
+						}
+					}
+					atClose := 0
+					for _, e := range n.S.Log()[logBefore:] {
+						if e.Kind == vsim.EvReply && e.Type == pb.Message_GET_VALUE && e.VT.Equal(closeVT) {
+							atClose++
+						}
+					}
+					if nv == q+1 && lastVT.Equal(closeVT) && atClose == 1 {
+						finalRank := -1
+						if len(ems) > 0 {
+							if p, err := vFrtParse(ems[len(ems)-1].Val); err == nil {
+								finalRank = p.Rank
+							}
+						}
+						c.Check(finalRank >= top, "quorum-completing-value-counts", "%s with quorum %d: %d valid values supplied by the close at +%v, the last one alone at that very instant (it completed the quorum), the best of rank %d by %s, but the final value has rank %d", sc.Op, q, nv, closeVT.Sub(start), top, topFrom, finalRank)
+					}
 				}
 				// (5) nothing valid supplied => not found
 				if !anyValid {
